@@ -261,3 +261,50 @@ func (c *vfChunked) Read(p []byte) (int, error) {
 	c.data = c.data[n:]
 	return n, nil
 }
+
+// TestVerifC20TracerLongLived: one decompressor obtained from the tracer serves a whole stream: after any
+// amount of earlier output, the next valid message still decodes exactly.
+func TestVerifC20TracerLongLived(t *testing.T) {
+	rep := verifkit.Begin("C20", "tracer-long-lived", "6 encodings: one tracer.GetDecompressor instance driven Reset+ReadAll over 48 messages of 1 B ... 512 KiB (12 MiB of output in total, thorough: 40 MiB), compressible and incompressible, each from an independent encoder; oracle: every message decodes to exactly its bytes; distinct = (encoding, message index)")
+	defer rep.Write()
+	names := []string{"identity", "gzip", "br", "zstd", "deflate", "snappy"}
+	rng := verifkit.Stream("c20longlived")
+	rounds := verifkit.Scale(48, 160)
+	for _, name := range names {
+		d := GetDecompressor(name)
+		total := 0
+		for i := 0; i < rounds; i++ {
+			size := []int{1, 100, 4096, 65536, 262144, 524288}[i%6]
+			var msg []byte
+			if i%2 == 0 {
+				msg = bytes.Repeat([]byte{byte('a' + i%26)}, size)
+			} else {
+				msg = rng.Bytes(size)
+			}
+			z, _ := verifkit.IndepCompress(name, msg)
+			rep.Eval(1)
+			rep.DistinctKey(name, i)
+			var out []byte
+			var err error
+			pn := verifkit.Catch(func() {
+				if err = d.Reset(bytes.NewReader(z)); err == nil {
+					out, err = io.ReadAll(d)
+				}
+			})
+			w := map[string]any{"encoding": name, "message_index": i, "message_bytes": size, "output_of_this_instance_so_far": total}
+			if pn != nil {
+				rep.Violation("compress/"+name+"/tracer-long-lived/panic/"+pn.Site, pn.Value, w)
+				break
+			}
+			if err != nil || !bytes.Equal(out, msg) {
+				rep.Violation("compress/"+name+"/tracer-long-lived/message-lost", fmt.Sprintf("message #%d (%d bytes) through an instance that had already produced %d bytes: got %d bytes, err %v", i, size, total, len(out), err), w)
+				break
+			}
+			total += size
+			rep.Count("long_lived_messages_ok", 1)
+		}
+		rep.Count("bytes_through_one_instance:"+name, total)
+	}
+	rep.Sample(map[string]any{"encoding": "gzip", "history": "47 messages (11 MiB) then one more", "expect": "decodes exactly"})
+	rep.RequireMin("long_lived_messages_ok", 200)
+}
